@@ -302,9 +302,8 @@ pub fn replay_one(idx: usize, v: &Value, rep: &Report, cnt: &mut Counts, o: &Opt
             }
             // which strategy of the meta searcher served this search (coverage measurement only, from the step counters)
             {
-                let f = memmem::Finder::new(&n);
                 memchr::verif::start(&[]);
-                let _ = guard(|| f.find(&h));
+                let _ = guard(|| memmem::Finder::new(&n).find(&h));
                 let (_, t) = memchr::verif::stop();
                 use memchr::verif::{T_PP, T_PRE, T_RK, T_TW};
                 let route = if n.is_empty() {
@@ -429,6 +428,22 @@ pub fn replay_one(idx: usize, v: &Value, rep: &Report, cnt: &mut Counts, o: &Opt
                     (a, b, 0)
                 });
                 iter_outcome(&c, cnt, "find_iter.into_owned", r, &wfwd);
+                // conversion in the middle of the iteration: the owned iterator continues the same sequence
+                let r = guard(|| {
+                    let mut it = memmem::find_iter(&h, &n);
+                    let cut = (j + k) % (total + 2);
+                    let mut head = Vec::new();
+                    for _ in 0..cut {
+                        match it.next() {
+                            Some(i) => head.push(i as i64),
+                            None => break,
+                        }
+                    }
+                    let (rest, bad, _) = drive_iter(it.into_owned(), total.saturating_sub(head.len()), h.len() + 2);
+                    head.extend(rest);
+                    (head, bad, 0)
+                });
+                iter_outcome(&c, cnt, "find_iter[after some items].into_owned", r, &wfwd);
             }
         }
         if g.riter && (!ns.is_empty() || k == 0) {
@@ -539,21 +554,30 @@ fn blocks(c: &Case, cnt: &mut Counts, n: &[u8], h: &[u8], wfind: i64, wrfind: i6
         }
     };
     if n.len() >= 2 {
-        if let Some(f) = packedpair::Finder::new(n) {
+        if let Some(f) = guard(|| packedpair::Finder::new(n)).unwrap_or_else(|m| {
+            c.rep.finding(Class::Panic, &format!("all::packedpair::Finder::new panicked: {m}"), c.ctx("all::packedpair::Finder::new"));
+            None
+        }) {
             let (i1, i2) = (f.pair().index1() as usize, f.pair().index2() as usize);
             pre_check("all::packedpair::find_prefilter", guard(|| f.find_prefilter(h)), i1, i2, cnt);
         }
         #[cfg(verif_x86)]
         {
             use memchr::arch::x86_64::{avx2, sse2};
-            if let Some(f) = sse2::packedpair::Finder::new(n) {
+            if let Some(f) = guard(|| sse2::packedpair::Finder::new(n)).unwrap_or_else(|m| {
+            c.rep.finding(Class::Panic, &format!("sse2::packedpair::Finder::new panicked: {m}"), c.ctx("sse2::packedpair::Finder::new"));
+            None
+        }) {
                 if h.len() >= f.min_haystack_len() {
                     c.check(cnt, "sse2::packedpair::find", guard(|| opt_to_i(f.find(h, n))), wfind);
                     let (i1, i2) = (f.pair().index1() as usize, f.pair().index2() as usize);
                     pre_check("sse2::packedpair::find_prefilter", guard(|| f.find_prefilter(h)), i1, i2, cnt);
                 }
             }
-            if let Some(f) = avx2::packedpair::Finder::new(n) {
+            if let Some(f) = guard(|| avx2::packedpair::Finder::new(n)).unwrap_or_else(|m| {
+            c.rep.finding(Class::Panic, &format!("avx2::packedpair::Finder::new panicked: {m}"), c.ctx("avx2::packedpair::Finder::new"));
+            None
+        }) {
                 if h.len() >= f.min_haystack_len() {
                     c.check(cnt, "avx2::packedpair::find", guard(|| opt_to_i(f.find(h, n))), wfind);
                     let (i1, i2) = (f.pair().index1() as usize, f.pair().index2() as usize);
@@ -564,7 +588,10 @@ fn blocks(c: &Case, cnt: &mut Counts, n: &[u8], h: &[u8], wfind: i64, wrfind: i6
         #[cfg(verif_wasm)]
         {
             use memchr::arch::wasm32::simd128;
-            if let Some(f) = simd128::packedpair::Finder::new(n) {
+            if let Some(f) = guard(|| simd128::packedpair::Finder::new(n)).unwrap_or_else(|m| {
+            c.rep.finding(Class::Panic, &format!("simd128::packedpair::Finder::new panicked: {m}"), c.ctx("simd128::packedpair::Finder::new"));
+            None
+        }) {
                 if h.len() >= f.min_haystack_len() {
                     c.check(cnt, "simd128::packedpair::find", guard(|| opt_to_i(f.find(h, n))), wfind);
                     let (i1, i2) = (f.pair().index1() as usize, f.pair().index2() as usize);
@@ -575,7 +602,10 @@ fn blocks(c: &Case, cnt: &mut Counts, n: &[u8], h: &[u8], wfind: i64, wrfind: i6
         #[cfg(target_arch = "aarch64")]
         {
             use memchr::arch::aarch64::neon;
-            if let Some(f) = neon::packedpair::Finder::new(n) {
+            if let Some(f) = guard(|| neon::packedpair::Finder::new(n)).unwrap_or_else(|m| {
+            c.rep.finding(Class::Panic, &format!("neon::packedpair::Finder::new panicked: {m}"), c.ctx("neon::packedpair::Finder::new"));
+            None
+        }) {
                 if h.len() >= f.min_haystack_len() {
                     c.check(cnt, "neon::packedpair::find", guard(|| opt_to_i(f.find(h, n))), wfind);
                     let (i1, i2) = (f.pair().index1() as usize, f.pair().index2() as usize);
